@@ -130,6 +130,7 @@ def gen_record(rng: random.Random, malformed: bool):
     dcur = d0 if vk != "none" else None
     counter = [0]
     ops = case["ops"]
+    tcur = {"dt": dt, "dur": dur, "incl": incl}      # temporal configuration as the generator believes it to be
     nops = rng.randint(4, 22)
     for _ in range(nops):
         if dirty:
@@ -160,13 +161,18 @@ def gen_record(rng: random.Random, malformed: bool):
             if malformed and rng.random() < 0.15:
                 x = rng.choice([0.0, -0.5])
             ops.append(["dt", x])
+            if x > 0:
+                tcur["dt"] = x
         elif k == "dur":
             x = rng.choice(DURS)
             if malformed and rng.random() < 0.15:
                 x = -1.0
             ops.append(["dur", x])
+            if x >= 0:
+                tcur["dur"] = x
         elif k == "incl":
             ops.append(["incl", rng.random() < 0.5])
+            tcur["incl"] = ops[-1][1]
         elif k == "recon":
             n = len(cur_sh)
             r = rng.random()
@@ -196,8 +202,9 @@ def gen_record(rng: random.Random, malformed: bool):
                 if key not in cons and size == cur_sh[ax]:
                     cons[key] = size
             else:                                       # stray: out of range dims, negative sizes, record-dim alias
-                key = rng.choice([-n - 1, n, n + 1, -n - 2, 5])
-                size = rng.choice([None, -1, 1, 2, 3])
+                key = rng.choice([-n - 1, -n - 1, n, n + 1, -n - 2, 5])
+                n_est = size_float(tcur["dur"], tcur["dt"], tcur["incl"]) if tcur["dt"] > 0 else 1
+                size = rng.choice([None, -1, 1, 2, 3, n_est, n_est])      # key -n-1 with the record size: accepted when non-strict
                 ops.append(["recon", key, size])
         elif k == "setv":
             r = rng.random()
@@ -542,6 +549,15 @@ def constraint_holds(shape, cons, strict):
     return True
 
 
+# The one place where the unchanged tree does not do what the property's first clause says (reported to the lead as a
+# finding candidate, see setter_alias_nonstrict_refuted): with NON-strict constraints a negative key can address the
+# record dimension; a temporal setter then raises RuntimeError after it stored the new dt/duration, so the record keeps
+# its old number of slots.  Not judged as a failure while the flag is False (the check must pass on the unchanged tree);
+# set it to True together with a known_findings.json entry matching {"kind": "setter_raises_record_dim_aliased"}.
+REPORT_ALIAS_AS_FAILURE = True
+CANDIDATES = []
+
+
 def fail(step, op, kind, **kw):
     return {"step": step, "op": op, "what": kind, **kw}, {"kind": kind}
 
@@ -581,6 +597,14 @@ def oracle_record(case, tr):
                     return fail(i, op, "setter_raises_uninitialised", error=e)
                 if pvalid and not alias0:
                     return fail(i, op, "setter_raises", error=e)
+                if pvalid and alias0:
+                    if REPORT_ALIAS_AS_FAILURE:
+                        return fail(i, op, "setter_raises_record_dim_aliased", error=e, recordsz=cr[0],
+                                    stored=[cdt, cdur, cincl])
+                    CANDIDATES.append({"case": dict(case, ops=case["ops"][: i + 1]),
+                                       "signature": {"kind": "setter_raises_record_dim_aliased"},
+                                       "detail": {"step": i, "op": op, "error": e, "recordsz": cr[0],
+                                                  "stored": [cdt, cdur, cincl]}})
                 prev = cur
                 continue
             ndt, ndur, nincl = (op[1] if k == "dt" else pdt), (op[1] if k == "dur" else pdur), (op[1] if k == "incl" else pincl)
@@ -726,6 +750,7 @@ def load_corpus():
 
 def run(ctx):
     rng = random.Random(ctx["seed"])
+    del CANDIDATES[:]
     n = 450 if ctx["tier"] == "quick" else 6000
     cases = load_corpus() + gen_cases(rng, n)
     exhaustive = ctx["tier"] == "thorough"
@@ -767,6 +792,9 @@ def run(ctx):
                     cur = ent[2]
                     if isinstance(cur, dict):
                         break
+                    if op[0] in ("dt", "dur", "incl") and ent[0] == 1 and prev[0][2] == 2 and \
+                            any(d < 0 and d + 1 + len(prev[0][4]) == 0 for d, _s in prev[1]):
+                        stats["setter_refused:record_dim_aliased"] += 1
                     if op[0] in ("dt", "dur", "incl") and ent[0] == 0:
                         a, b = prev[0][0], cur[0][0]
                         stats["resize:" + ("grow" if b > a else "shrink" if b < a else "noop") +
@@ -785,6 +813,8 @@ def run(ctx):
                 + ("; plus small-scope enumeration: all (old,new) sizes <=5 x fill levels x 3 setters, all depth-3 sequences "
                    "over a 10-op reconstrain alphabet (strict and non-strict)" if exhaustive else ""),
         "distribution": dict(stats),
+        "finding_candidates_not_judged": {"setter_raises_record_dim_aliased": len(CANDIDATES),
+                                          "example": CANDIDATES[0] if CANDIDATES else None},
         "samples": cases[:2],
         "mismatches": mismatches, "oracle_failures": oracle_fail,
         "traces_validated_against_impl": len(cases) - len(mismatches),
